@@ -109,14 +109,26 @@ class Fn(object):
       if {'Lpatch': 'patch', 'Ltext': 'text', 'Lnode': 'node'}.get(lt) != t:
         fail(s, 'append of a %r to a %r' % (t, lt))
       return 'let %s := %s ++ [%s] in\n%s' % (cname(v), env[v][0], c, rest(dict(env, **{v: (cname(v), lt)})))
+    if isinstance(s, ast.If) and isinstance(s.test, ast.Name) and env.get(s.test.id, (0, 0))[1] == 'Omatch' \
+       and not terminates(s.body):
+      # `m = regexp.match(...)` / `if m:`: inside the branch m is the match object
+      v = s.test.id
+      names = [x for x in assigned(s.body + s.orelse) if x in env]      # the others are local to the branch
+      if not names:
+        fail(s, 'an `if` that changes nothing')
+      tail2 = lambda e: self.tup(names, e)
+      inner = self.seq(s.body, dict(env, **{v: (cname(v), 'match')}), tail2)
+      value = 'match %s with Some %s =>\n%s\n| None =>\n%s\nend' % (env[v][0], cname(v), inner,
+                                                                    self.seq(s.orelse, env, tail2))
+      return self.bind_vars(names, value, env, rest)
     if isinstance(s, ast.If):
       cond = self.tr.truth(s.test, env)
       if terminates(s.body) and (terminates(s.orelse) or not s.orelse):
         other = self.seq(s.orelse, env, None) if s.orelse else rest(env)
         return 'if %s then\n%s\nelse\n%s' % (cond, self.seq(s.body, env, None), other)
-      names = assigned(s.body + s.orelse)
-      if any(v not in env for v in names) or not names:
-        fail(s, 'an `if` that introduces names')
+      names = [x for x in assigned(s.body + s.orelse) if x in env]      # the others are local to the branch
+      if not names:
+        fail(s, 'an `if` that changes nothing')
       tail2 = lambda e: self.tup(names, e)
       value = 'if %s then\n%s\nelse\n%s' % (cond, self.seq(s.body, env, tail2), self.seq(s.orelse, env, tail2))
       return self.bind_vars(names, value, env, rest)
